@@ -1671,6 +1671,10 @@ class CompressedOption(se.OptionalFlagged):
 
 NAMEVALUES_TERMINATED_TEMPLATE = se.TypedBytesTerminated(
     NameValuesSerializer, terminators=(b"\x00",), empty_is_none=True)
+# Inside ObjectUpdateCompressed the NAME_VALUES flag says the section is there,
+# so an empty one still has its terminator on the wire
+COMPRESSED_NAMEVALUES_TEMPLATE = se.TypedBytesTerminated(
+    NameValuesSerializer, terminators=(b"\x00",), empty_is_none=True, skip_none=False)
 
 
 @se.subfield_serializer("ObjectUpdateCompressed", "ObjectData", "Data")
@@ -1708,7 +1712,7 @@ class ObjectUpdateCompressedDataSerializer(se.SimpleSubfieldSerializer):
         "SoundGain": CompressedOption(CompressedFlags.SOUND, se.F32),
         "SoundFlags": CompressedOption(CompressedFlags.SOUND, se.IntFlag(SoundFlags, se.U8)),
         "SoundRadius": CompressedOption(CompressedFlags.SOUND, se.F32),
-        "NameValue": CompressedOption(CompressedFlags.NAME_VALUES, NAMEVALUES_TERMINATED_TEMPLATE),
+        "NameValue": CompressedOption(CompressedFlags.NAME_VALUES, COMPRESSED_NAMEVALUES_TEMPLATE),
         # Intentionally not de-quantizing to preserve their real ranges.
         "PathCurve": se.U8,
         "ProfileCurve": se.U8,
